@@ -122,3 +122,655 @@ Proof.
   - vm_compute. reflexivity.
 Qed.
 
+(* ------------------------------------------------------------------------- *)
+(* (b) profiles: normalize / unnormalize                                    *)
+(* ------------------------------------------------------------------------- *)
+Section ProfProofs.
+Variable T : Type.
+Variables (mul div : T -> T -> T) (norm_of : bool -> list T -> T) (is_zero : T -> bool) (one : T).
+Notation pstep := (pstep T mul div norm_of is_zero one).
+Notation prun := (prun T mul div norm_of is_zero one).
+Notation pobserve := (pobserve T mul div norm_of is_zero one).
+Notation pinit := (pinit T one).
+
+(* what is observable of a state: the normalisation value and the three arrays a read
+   would return (cached or not) *)
+Record pview := { v_nv : T; v_p : list T; v_e : list T; v_d : option (list T) }.
+Definition view (c : pcfg T) (s : pst T) : pview :=
+  {| v_nv := nv T s;
+     v_p := match cp T s with Some v => v | None => p_PR T c end;
+     v_e := match ce T s with Some v => v | None => p_ER T c end;
+     v_d := match cd T s with Some d => Some d | None => p_DR T c end |}.
+
+(* the cache-free reference object: no lazy attributes, all three arrays always rescaled *)
+Definition vscale (c : pcfg T) (v : pview) (f : T -> T) : pview :=
+  {| v_nv := v_nv v; v_p := map f (v_p v); v_e := map f (v_e v);
+     v_d := match p_DR T c with None => v_d v | Some _ => option_map (map f) (v_d v) end |}.
+Definition vstep (c : pcfg T) (v : pview) (o : pop) : pview * pobs T :=
+  match o with
+  | PRead AProf => (v, OArr T (v_p v))
+  | PRead AErr => (v, OArr T (v_e v))
+  | PRead AData => (v, match v_d v with Some d => OArr T d | None => ORaise T 3 end)
+  | PReadNV => (v, OScalar T (v_nv v))
+  | PNorm sum =>
+      let n := norm_of sum (v_p v) in
+      if is_zero n then (v, ONone T)
+      else (vscale c {| v_nv := mul (v_nv v) n; v_p := v_p v; v_e := v_e v; v_d := v_d v |}
+                   (fun x => div x n), ONone T)
+  | PUnnorm =>
+      let k := v_nv v in
+      let v1 := vscale c v (fun x => mul x k) in
+      ({| v_nv := one; v_p := v_p v1; v_e := v_e v1; v_d := v_d v1 |}, ONone T)
+  end.
+Definition vrun (c : pcfg T) (h : list pop) (v : pview) : pview :=
+  fold_left (fun v o => fst (vstep c v o)) h v.
+
+Lemma pstep_sim c s o :
+  view c (fst (pstep false c s o)) = fst (vstep c (view c s) o) /\
+  snd (pstep false c s o) = snd (vstep c (view c s) o).
+Proof.
+  destruct c as [PR ER DR], s as [n p e d].
+  destruct o as [[| |] | | sm | ]; destruct p as [p|], e as [e|], d as [d|], DR as [DR|];
+    cbn; try (split; reflexivity);
+    try (destruct (is_zero _); cbn; split; reflexivity).
+Qed.
+
+Lemma vstep_read c v o : is_mut o = false -> fst (vstep c v o) = v.
+Proof. destruct o as [[| |] | | sm | ]; cbn; intros E; try discriminate; reflexivity. Qed.
+
+Lemma view_prun c h : forall s, view c (prun false c h s) = vrun c h (view c s).
+Proof.
+  induction h as [|o h IH]; intros s; [reflexivity|].
+  unfold C09_Model.prun, vrun in *. cbn [fold_left]. rewrite IH.
+  destruct (pstep_sim c s o) as [E _]. rewrite E. reflexivity.
+Qed.
+
+Lemma vrun_filter c h : forall v, vrun c h v = vrun c (filter is_mut h) v.
+Proof.
+  induction h as [|o h IH]; intros v; [reflexivity|].
+  unfold vrun in *. cbn [fold_left filter]. destruct (is_mut o) eqn:E.
+  - cbn [fold_left]. apply IH.
+  - rewrite (vstep_read c v o E). apply IH.
+Qed.
+
+(* every observation equals the observation of the cache-free reference object that was
+   given only the normalize/unnormalize calls of the history *)
+Lemma profile_obs_reference c h o :
+  pobserve false c h o = snd (vstep c (vrun c (filter is_mut h) (view c pinit)) o).
+Proof.
+  unfold C09_Model.pobserve. destruct (pstep_sim c (prun false c h pinit) o) as [_ E].
+  rewrite E, view_prun, <- vrun_filter. reflexivity.
+Qed.
+
+Lemma filter_is_mut_idem (h : list pop) : filter is_mut (filter is_mut h) = filter is_mut h.
+Proof.
+  induction h as [|o h IH]; [reflexivity|]. cbn. destruct (is_mut o) eqn:E; [|exact IH].
+  cbn. rewrite E, IH. reflexivity.
+Qed.
+
+(* ... hence the observation of a fresh object given the same normalize/unnormalize calls *)
+Lemma profile_reads_fresh_lemma c h o :
+  pobserve false c h o = pobserve false c (filter is_mut h) o.
+Proof. rewrite !profile_obs_reference, filter_is_mut_idem. reflexivity. Qed.
+
+(* two histories with the same normalize/unnormalize calls are indistinguishable *)
+Lemma profile_order_independent_lemma c h1 h2 o :
+  filter is_mut h1 = filter is_mut h2 -> pobserve false c h1 o = pobserve false c h2 o.
+Proof. intros E. rewrite (profile_reads_fresh_lemma c h1), (profile_reads_fresh_lemma c h2), E. reflexivity. Qed.
+
+(* no read raises unless the class has no such attribute (CurveOfGrowth.data_profile:
+   AttributeError on a fresh object too) *)
+Lemma vstep_d_some c v o : v_d v <> None -> v_d (fst (vstep c v o)) <> None.
+Proof.
+  destruct o as [[| |] | | sm | ]; cbn; auto.
+  - destruct (is_zero _); cbn; auto. destruct (p_DR T c); cbn; auto. destruct (v_d v); cbn; congruence.
+  - destruct (p_DR T c); cbn; auto. destruct (v_d v); cbn; congruence.
+Qed.
+Lemma vrun_d_some c h : forall v, v_d v <> None -> v_d (vrun c h v) <> None.
+Proof.
+  induction h as [|o h IH]; intros v H; [exact H|]. unfold vrun in *. cbn [fold_left].
+  apply IH, vstep_d_some, H.
+Qed.
+Lemma profile_no_raise_lemma c h o e :
+  pobserve false c h o = ORaise T e -> o = PRead AData /\ p_DR T c = None /\ e = 3%Z.
+Proof.
+  rewrite profile_obs_reference.
+  destruct o as [[| |] | | sm | ]; cbn; try discriminate.
+  - destruct (v_d _) eqn:E; [discriminate|]. intros [= <-]. repeat split; auto.
+    destruct (p_DR T c) eqn:D; [|reflexivity]. exfalso.
+    refine (vrun_d_some c (filter is_mut h) (view c pinit) _ E). cbn. rewrite D. discriminate.
+  - destruct (is_zero _); discriminate.
+Qed.
+End ProfProofs.
+
+(* the code as found (legacy = true): data_profile is rescaled only if it was read before *)
+Lemma profile_legacy_refuted_lemma :
+  exists (c : pcfg Z) (h1 h2 : list pop) (o : pop),
+    filter is_mut h1 = filter is_mut h2 /\
+    pobserve Z Z.mul Z.div (fun _ l => fold_left Z.max l 0%Z) (Z.eqb 0) 1%Z true c h1 o
+    <> pobserve Z Z.mul Z.div (fun _ l => fold_left Z.max l 0%Z) (Z.eqb 0) 1%Z true c h2 o.
+Proof.
+  exists {| p_PR := [2; 4]%Z; p_ER := [1; 1]%Z; p_DR := Some [8; 12]%Z |},
+         [PNorm false], [PRead AData; PNorm false], (PRead AData).
+  split; [reflexivity|]. vm_compute. discriminate.
+Qed.
+
+(* ------------------------------------------------------------------------- *)
+(* (c) apertures                                                            *)
+(* ------------------------------------------------------------------------- *)
+Section AperProofs.
+Variable V : Type.
+Variables (F_shape F_isscalar F_pos2d : V -> V) (F_ext F_area : params V -> V)
+          (F_bbox F_pick F_edges : V -> V -> V) (F_mask : Z -> params V -> V -> V -> V) (noval : V).
+Notation afresh := (afresh V F_shape F_isscalar F_pos2d F_ext F_area F_bbox F_pick F_edges F_mask noval).
+Notation aspec := (aspec V F_shape F_isscalar F_pos2d F_ext F_area F_bbox F_pick F_edges F_mask noval).
+Notation aread := (aread V F_shape F_isscalar F_pos2d F_ext F_area F_bbox F_pick F_edges F_mask noval).
+Notation astep := (astep V F_shape F_isscalar F_pos2d F_ext F_area F_bbox F_pick F_edges F_mask noval).
+Notation arun := (arun V F_shape F_isscalar F_pos2d F_ext F_area F_bbox F_pick F_edges F_mask noval).
+Notation rd_shape := (rd_shape V F_shape noval).
+Notation rd_isscalar := (rd_isscalar V F_shape F_isscalar noval).
+Notation rd_pos2d := (rd_pos2d V F_pos2d noval).
+Notation rd_ext := (rd_ext V F_ext).
+Notation rd_bbox_ := (rd_bbox_ V F_pos2d F_ext F_bbox noval).
+Notation rd_bbox := (rd_bbox V F_shape F_isscalar F_pos2d F_ext F_bbox F_pick noval).
+Notation rd_edges := (rd_edges V F_pos2d F_ext F_bbox F_edges noval).
+Notation rd_area := (rd_area V F_area).
+Notation rd_mask := (rd_mask V F_shape F_isscalar F_pos2d F_ext F_bbox F_pick F_edges F_mask noval).
+
+(* every cached lazyproperty equals what a fresh aperture with the current parameters computes *)
+Definition ainv (s : ast V) : Prop :=
+  let p := a_params V s in let k := a_cache V s in
+  (forall v, k_shape V k = Some v -> v = afresh p AShape) /\
+  (forall v, k_isscalar V k = Some v -> v = afresh p AIsScalar) /\
+  (forall v, k_pos2d V k = Some v -> v = afresh p APos2d) /\
+  (forall v, k_ext V k = Some v -> v = afresh p AExt) /\
+  (forall v, k_bbox_ V k = Some v -> v = afresh p ABbox_) /\
+  (forall v, k_bbox V k = Some v -> v = afresh p ABbox) /\
+  (forall v, k_edges V k = Some v -> v = afresh p AEdges) /\
+  (forall v, k_area V k = Some v -> v = afresh p AArea).
+
+Definition rd_ok (a : aattr) (s s' : ast V) (v : V) : Prop :=
+  a_params V s' = a_params V s /\ ainv s' /\ v = afresh (a_params V s) a.
+
+Ltac inv_pair E := inversion E; subst; clear E.
+Ltac break_inv I := destruct I as (I1 & I2 & I3 & I4 & I5 & I6 & I7 & I8).
+Ltac solve_inv :=
+  unfold ainv; cbn; repeat split; intros ? Hq; try (inv_pair Hq; reflexivity); auto.
+
+Lemma rd_shape_ok s s' v : ainv s -> rd_shape s = (s', v) -> rd_ok AShape s s' v.
+Proof.
+  intros I E. unfold C09_Model.rd_shape in E. destruct s as [p k]. cbn in *.
+  destruct (k_shape V k) as [w|] eqn:Ek.
+  - inv_pair E. break_inv I. cbn in *. repeat split; auto; unfold ainv; cbn; repeat split; auto.
+  - inv_pair E. break_inv I. cbn in *. split; [reflexivity|]. split; [|reflexivity]. solve_inv.
+Qed.
+
+Lemma rd_isscalar_ok s s' v : ainv s -> rd_isscalar s = (s', v) -> rd_ok AIsScalar s s' v.
+Proof.
+  intros I E. unfold C09_Model.rd_isscalar in E.
+  destruct (k_isscalar V (a_cache V s)) as [w|] eqn:Ek.
+  - inv_pair E. split; [reflexivity|]. split; [exact I|]. break_inv I. auto.
+  - destruct (rd_shape s) as [s1 sh] eqn:E1. destruct (rd_shape_ok _ _ _ I E1) as (P1 & J & ->).
+    inv_pair E. destruct s1 as [p1 k1]. cbn in *. subst p1. split; [reflexivity|]. split; [|reflexivity].
+    break_inv J. cbn in *. solve_inv.
+Qed.
+
+Lemma rd_pos2d_ok s s' v : ainv s -> rd_pos2d s = (s', v) -> rd_ok APos2d s s' v.
+Proof.
+  intros I E. unfold C09_Model.rd_pos2d in E. destruct s as [p k]. cbn in *.
+  destruct (k_pos2d V k) as [w|] eqn:Ek.
+  - inv_pair E. break_inv I. cbn in *. repeat split; auto; unfold ainv; cbn; repeat split; auto.
+  - inv_pair E. break_inv I. cbn in *. split; [reflexivity|]. split; [|reflexivity]. solve_inv.
+Qed.
+
+Lemma rd_ext_ok cl s s' v : ainv s -> rd_ext cl s = (s', v) -> rd_ok AExt s s' v.
+Proof.
+  intros I E. unfold C09_Model.rd_ext in E. destruct s as [p k]. cbn in *.
+  destruct (lazy_ext cl).
+  - destruct (k_ext V k) as [w|] eqn:Ek.
+    + inv_pair E. break_inv I. cbn in *. repeat split; auto; unfold ainv; cbn; repeat split; auto.
+    + inv_pair E. break_inv I. cbn in *. split; [reflexivity|]. split; [|reflexivity]. solve_inv.
+  - inv_pair E. split; [reflexivity|]. split; [exact I|reflexivity].
+Qed.
+
+Lemma rd_area_ok cl s s' v : ainv s -> rd_area cl s = (s', v) -> rd_ok AArea s s' v.
+Proof.
+  intros I E. unfold C09_Model.rd_area in E. destruct s as [p k]. cbn in *.
+  destruct (lazy_area cl).
+  - destruct (k_area V k) as [w|] eqn:Ek.
+    + inv_pair E. break_inv I. cbn in *. repeat split; auto; unfold ainv; cbn; repeat split; auto.
+    + inv_pair E. break_inv I. cbn in *. split; [reflexivity|]. split; [|reflexivity]. solve_inv.
+  - inv_pair E. split; [reflexivity|]. split; [exact I|reflexivity].
+Qed.
+
+Lemma rd_bbox__ok cl s s' v : ainv s -> rd_bbox_ cl s = (s', v) -> rd_ok ABbox_ s s' v.
+Proof.
+  intros I E. unfold C09_Model.rd_bbox_ in E.
+  destruct (k_bbox_ V (a_cache V s)) as [w|] eqn:Ek.
+  - inv_pair E. split; [reflexivity|]. split; [exact I|]. break_inv I. auto.
+  - destruct (rd_ext cl s) as [s1 e] eqn:E1. destruct (rd_ext_ok _ _ _ _ I E1) as (P1 & J1 & ->).
+    destruct (rd_pos2d s1) as [s2 q] eqn:E2. destruct (rd_pos2d_ok _ _ _ J1 E2) as (P2 & J2 & ->).
+    inv_pair E. destruct s2 as [p2 k2]. cbn in *. rewrite P1 in *. subst p2.
+    split; [reflexivity|]. split; [|reflexivity]. break_inv J2. cbn in *. solve_inv.
+Qed.
+
+Lemma rd_bbox_ok cl s s' v : ainv s -> rd_bbox cl s = (s', v) -> rd_ok ABbox s s' v.
+Proof.
+  intros I E. unfold C09_Model.rd_bbox in E.
+  destruct (k_bbox V (a_cache V s)) as [w|] eqn:Ek.
+  - inv_pair E. split; [reflexivity|]. split; [exact I|]. break_inv I. auto.
+  - destruct (rd_isscalar s) as [s1 e] eqn:E1. destruct (rd_isscalar_ok _ _ _ I E1) as (P1 & J1 & ->).
+    destruct (rd_bbox_ cl s1) as [s2 q] eqn:E2. destruct (rd_bbox__ok _ _ _ _ J1 E2) as (P2 & J2 & ->).
+    inv_pair E. destruct s2 as [p2 k2]. cbn in *. rewrite P1 in *. subst p2.
+    split; [reflexivity|]. split; [|reflexivity]. break_inv J2. cbn in *. solve_inv.
+Qed.
+
+Lemma rd_edges_ok cl s s' v : ainv s -> rd_edges cl s = (s', v) -> rd_ok AEdges s s' v.
+Proof.
+  intros I E. unfold C09_Model.rd_edges in E.
+  destruct (k_edges V (a_cache V s)) as [w|] eqn:Ek.
+  - inv_pair E. split; [reflexivity|]. split; [exact I|]. break_inv I. auto.
+  - destruct (rd_pos2d s) as [s1 e] eqn:E1. destruct (rd_pos2d_ok _ _ _ I E1) as (P1 & J1 & ->).
+    destruct (rd_bbox_ cl s1) as [s2 q] eqn:E2. destruct (rd_bbox__ok _ _ _ _ J1 E2) as (P2 & J2 & ->).
+    inv_pair E. destruct s2 as [p2 k2]. cbn in *. rewrite P1 in *. subst p2.
+    split; [reflexivity|]. split; [|reflexivity]. break_inv J2. cbn in *. solve_inv.
+Qed.
+
+Lemma rd_mask_ok cl m s s' v : ainv s -> rd_mask cl m s = (s', v) -> rd_ok (AMask m) s s' v.
+Proof.
+  intros I E. unfold C09_Model.rd_mask in E.
+  destruct (rd_bbox_ cl s) as [s1 b] eqn:E1. destruct (rd_bbox__ok _ _ _ _ I E1) as (P1 & J1 & ->).
+  destruct (rd_edges cl s1) as [s2 e] eqn:E2. destruct (rd_edges_ok _ _ _ _ J1 E2) as (P2 & J2 & ->).
+  destruct (rd_isscalar s2) as [s3 sc] eqn:E3. destruct (rd_isscalar_ok _ _ _ J2 E3) as (P3 & J3 & ->).
+  inv_pair E. split; [congruence|]. split; [exact J3|]. rewrite P3, P2, P1. reflexivity.
+Qed.
+
+Lemma aread_ok cl a s s' v : ainv s -> aread cl s a = (s', v) -> rd_ok a s s' v.
+Proof.
+  destruct a; cbn [C09_Model.aread]; intros I E;
+    eauto using rd_shape_ok, rd_isscalar_ok, rd_pos2d_ok, rd_ext_ok, rd_bbox__ok, rd_bbox_ok,
+                rd_edges_ok, rd_area_ok, rd_mask_ok.
+Qed.
+
+(* the parameters of a constructed aperture are all present; assignments only name them *)
+Definition all_set (p : params V) : Prop := forall i, (i < length p)%nat -> nth i p None <> None.
+Definition wf_op (n : nat) (o : aop V) : Prop :=
+  match o with ASet _ i _ _ => (i < n)%nat | ARead _ _ => True end.
+
+Lemma upd_length p : forall i v, (i < length p)%nat -> length (upd V p i v) = length p.
+Proof.
+  induction p as [|x p IH]; intros i v H; [cbn in H; lia|].
+  destruct i; cbn; [reflexivity|]. f_equal. apply IH. cbn in H. lia.
+Qed.
+Lemma upd_all_set p : forall i v, (i < length p)%nat -> all_set p -> all_set (upd V p i v).
+Proof.
+  induction p as [|x p IH]; intros i v H A; [cbn in H; lia|].
+  destruct i; cbn.
+  - intros [|j] Hj; cbn; [discriminate|]. apply (A (S j)). cbn in *. lia.
+  - intros [|j] Hj; cbn.
+    + apply (A 0%nat). cbn. lia.
+    + apply IH; [cbn in H; lia| |cbn in Hj; lia].
+      intros j' Hj'. apply (A (S j')). cbn. lia.
+Qed.
+
+Lemma ainv_empty p : ainv {| a_params := p; a_cache := empty_cache V |}.
+Proof. unfold ainv; cbn. repeat split; intros; discriminate. Qed.
+
+Lemma astep_ok cl s o s' ob :
+  ainv s -> all_set (a_params V s) -> wf_op (length (a_params V s)) o -> astep cl s o = (s', ob) ->
+  ainv s' /\ all_set (a_params V s') /\ length (a_params V s') = length (a_params V s) /\
+  match o with
+  | ASet _ i v valid => if valid then a_params V s' = upd V (a_params V s) i v /\ ob = Val noval
+                      else a_params V s' = a_params V s /\ ob = Raise 2
+  | ARead _ a => a_params V s' = a_params V s /\ ob = Val (afresh (a_params V s) a)
+  end.
+Proof.
+  intros I A W E. destruct o as [i v valid|a]; cbn [C09_Model.astep] in E.
+  - unfold aset in E. destruct valid; cbn in E.
+    + cbn in W. pose proof (A i W) as Ai. destruct (nth i (a_params V s) None) eqn:En; [|congruence].
+      cbn in E. inv_pair E. cbn. split; [apply ainv_empty|]. split; [apply upd_all_set; auto|].
+      split; [apply upd_length; auto|]. split; reflexivity.
+    + inv_pair E. split; [exact I|]. split; [exact A|]. split; [reflexivity|]. split; reflexivity.
+  - destruct (aread cl s a) as [s1 v] eqn:E1. destruct (aread_ok _ _ _ _ _ I E1) as (P & J & ->).
+    inv_pair E. rewrite P. split; [exact J|]. split; [exact A|]. split; [reflexivity|]. split; reflexivity.
+Qed.
+
+Lemma arun_ok cl h : forall s,
+  ainv s -> all_set (a_params V s) -> Forall (wf_op (length (a_params V s))) h ->
+  map fst (arun cl s h) = aspec (a_params V s) h.
+Proof.
+  induction h as [|o h IH]; intros s I A W; [reflexivity|].
+  inversion W as [|? ? W1 W2]; subst.
+  cbn [C09_Model.arun]. destruct (astep cl s o) as [s1 ob] eqn:E.
+  destruct (astep_ok _ _ _ _ _ I A W1 E) as (I1 & A1 & L1 & Ho).
+  cbn [map fst]. rewrite <- L1 in W2. rewrite (IH s1 I1 A1 W2).
+  destruct o as [i v valid|a]; cbn [C09_Model.aspec].
+  - destruct valid; destruct Ho as [-> ->]; reflexivity.
+  - destruct Ho as [-> ->]; reflexivity.
+Qed.
+
+Lemma all_set_map_some (l : list V) : all_set (map Some l).
+Proof.
+  intros i Hi. rewrite map_length in Hi.
+  rewrite (nth_indep _ None (Some noval)) by (rewrite map_length; exact Hi).
+  rewrite (map_nth Some l noval i). discriminate.
+Qed.
+
+(* a constructed aperture (all parameters assigned, nothing read yet) *)
+Definition aconstructed (vs : list V) : ast V := {| a_params := map Some vs; a_cache := empty_cache V |}.
+
+Lemma aperture_reads_fresh_lemma cl vs h :
+  Forall (wf_op (length vs)) h ->
+  map fst (arun cl (aconstructed vs) h) = aspec (map Some vs) h.
+Proof.
+  intros W. apply (arun_ok cl h (aconstructed vs)); cbn.
+  - apply ainv_empty.
+  - apply all_set_map_some.
+  - rewrite map_length. exact W.
+Qed.
+
+(* the constructor itself: first assignments never reset anything and lead to [aconstructed] *)
+Fixpoint ctor_ops (i : nat) (vs : list V) : list (aop V) :=
+  match vs with [] => [] | v :: r => ASet V i v true :: ctor_ops (S i) r end.
+Definition afinal (cl : acls) (s : ast V) (h : list (aop V)) : ast V :=
+  fold_left (fun s o => fst (astep cl s o)) h s.
+
+Lemma upd_snoc (l : list V) v : upd V (map Some l) (length l) v = map Some (l ++ [v]).
+Proof. induction l as [|x l IH]; cbn; [reflexivity|]. rewrite IH. reflexivity. Qed.
+
+Lemma ctor_final cl vs : forall l,
+  afinal cl (aconstructed l) (ctor_ops (length l) vs) = aconstructed (l ++ vs).
+Proof.
+  induction vs as [|v vs IH]; intros l; cbn [ctor_ops afinal fold_left].
+  - rewrite app_nil_r. reflexivity.
+  - unfold afinal in IH. cbn [C09_Model.astep]. unfold aset. cbn [negb fst aconstructed a_params a_cache].
+    rewrite (nth_overflow (map Some l) None) by (rewrite map_length; lia).
+    cbn [is_some fst]. rewrite upd_snoc.
+    replace (S (length l)) with (length (l ++ [v])) by (rewrite app_length; cbn; lia).
+    change {| a_params := map Some (l ++ [v]); a_cache := empty_cache V |} with (aconstructed (l ++ [v])).
+    rewrite IH, <- app_assoc. reflexivity.
+Qed.
+
+Lemma arun_app cl h1 : forall s h2,
+  arun cl s (h1 ++ h2) = arun cl s h1 ++ arun cl (afinal cl s h1) h2.
+Proof.
+  induction h1 as [|o h1 IH]; intros s h2; [reflexivity|].
+  cbn [app C09_Model.arun afinal fold_left]. destruct (astep cl s o) as [s1 ob]. cbn [fst].
+  rewrite IH. reflexivity.
+Qed.
+
+Lemma ctor_outcomes cl vs : forall l,
+  map fst (arun cl (aconstructed l) (ctor_ops (length l) vs)) = repeat (Val noval) (length vs).
+Proof.
+  induction vs as [|v vs IH]; intros l; [reflexivity|].
+  cbn [ctor_ops C09_Model.arun C09_Model.astep]. unfold aset. cbn [negb aconstructed a_params a_cache].
+  rewrite (nth_overflow (map Some l) None) by (rewrite map_length; lia).
+  cbn [is_some map fst length repeat]. rewrite upd_snoc.
+  replace (S (length l)) with (length (l ++ [v])) by (rewrite app_length; cbn; lia).
+  change {| a_params := map Some (l ++ [v]); a_cache := empty_cache V |} with (aconstructed (l ++ [v])).
+  rewrite IH. reflexivity.
+Qed.
+
+(* from the empty object: constructor assignments, then ANY interleaving of assignments
+   to the declared parameters and reads *)
+Lemma aperture_history_fresh_lemma cl vs h :
+  Forall (wf_op (length vs)) h ->
+  map fst (arun cl (ainit V) (ctor_ops 0 vs ++ h))
+  = repeat (Val noval) (length vs) ++ aspec (map Some vs) h.
+Proof.
+  intros W. change (ainit V) with (aconstructed []). rewrite arun_app, map_app.
+  pose proof (ctor_outcomes cl vs []) as H1. pose proof (ctor_final cl vs []) as H2.
+  cbn [length app] in H1, H2. rewrite H1, H2.
+  rewrite aperture_reads_fresh_lemma by exact W. reflexivity.
+Qed.
+End AperProofs.
+(* ------------------------------------------------------------------------- *)
+(* (d) PSFPhotometry / IterativePSFPhotometry                                 *)
+(* ------------------------------------------------------------------------- *)
+Section PsfProofs.
+Variables G R : Type.
+Variable fit : option G -> pargs -> option R.
+Notation pscall := (pscall G R fit).
+Notation psrun := (psrun G R fit).
+Notation psinit := (psinit G R).
+
+(* repaired code: the outcome of a call depends on the state only through the grouper,
+   and the grouper is never changed *)
+Lemma pscall_grouper c s a :
+  ps_grouper G R (fst (pscall false c s a)) = ps_grouper G R s.
+Proof.
+  unfold C09_Model.pscall. destruct (pa_init a) as [[|]|]; cbn.
+  - destruct (fit None a); reflexivity.
+  - destruct (fit (ps_grouper G R s) a); reflexivity.
+  - destruct (ps_finder c); cbn; [destruct (fit (ps_grouper G R s) a)|]; reflexivity.
+Qed.
+Lemma pscall_outcome c s s' a :
+  ps_grouper G R s = ps_grouper G R s' -> snd (pscall false c s a) = snd (pscall false c s' a).
+Proof.
+  intros E. unfold C09_Model.pscall. cbn. rewrite E. reflexivity.
+Qed.
+
+Lemma psrun_ok c g0 h : forall s, ps_grouper G R s = g0 ->
+  map fst (psrun false c s h) = map (fun a => snd (pscall false c (psinit g0) a)) h.
+Proof.
+  induction h as [|a h IH]; intros s E; [reflexivity|].
+  cbn [C09_Model.psrun]. destruct (pscall false c s a) as [s1 o] eqn:E1. cbn [map fst]. f_equal.
+  - change o with (snd (s1, o)). rewrite <- E1. apply pscall_outcome. rewrite E. reflexivity.
+  - apply IH. change s1 with (fst (s1, o)). rewrite <- E1, pscall_grouper. exact E.
+Qed.
+
+Lemma psf_calls_fresh_lemma c g0 h :
+  map fst (psrun false c (psinit g0) h) = map (fun a => snd (pscall false c (psinit g0) a)) h.
+Proof. apply psrun_ok. reflexivity. Qed.
+
+(* the only exception is the configuration error "no finder and no init_params" *)
+Lemma psf_raise_lemma c s a e :
+  snd (pscall false c s a) = Raise e -> ps_finder c = false /\ pa_init a = None /\ e = 2%Z.
+Proof.
+  unfold C09_Model.pscall. destruct (pa_init a) as [[|]|]; cbn.
+  - destruct (fit None a); discriminate.
+  - destruct (fit (ps_grouper G R s) a); discriminate.
+  - destruct (ps_finder c); cbn; [destruct (fit (ps_grouper G R s) a); discriminate|].
+    intros [= <-]. auto.
+Qed.
+
+(* the per-call results kept on the object are those of the last call only *)
+Lemma psf_results_last_lemma c s a :
+  let '(s1, o) := pscall false c s a in
+  match o with
+  | Val r => ps_results G R s1 = r
+  | Raise _ => ps_results G R s1 = None
+  end.
+Proof.
+  unfold C09_Model.pscall. destruct (pa_init a) as [[|]|]; cbn.
+  - destruct (fit None a); reflexivity.
+  - destruct (fit (ps_grouper G R s) a); reflexivity.
+  - destruct (ps_finder c); cbn; [destruct (fit (ps_grouper G R s) a)|]; reflexivity.
+Qed.
+
+Variable next : list (outcome (option R)) -> option pargs.
+Notation itloop := (itloop G R fit next).
+Notation itcall := (itcall G R fit next).
+Notation itrun := (itrun G R fit next).
+
+Lemma itloop_ok c fuel : forall s s' acc, ps_grouper G R s = ps_grouper G R s' ->
+  snd (itloop false c fuel s acc) = snd (itloop false c fuel s' acc) /\
+  ps_grouper G R (fst (itloop false c fuel s acc)) = ps_grouper G R s.
+Proof.
+  induction fuel as [|f IH]; intros s s' acc E; cbn [C09_Model.itloop]; [split; reflexivity|].
+  destruct (next acc) as [a|]; [|split; reflexivity].
+  pose proof (pscall_outcome c s s' a E) as Eo.
+  pose proof (pscall_grouper c s a) as G1. pose proof (pscall_grouper c s' a) as G2.
+  destruct (pscall false c s a) as [s1 o1]. destruct (pscall false c s' a) as [s2 o2].
+  cbn [fst snd] in *. subst o2.
+  destruct (IH s1 s2 (acc ++ [o1])) as [H1 H2]; [congruence|]. split; [exact H1|congruence].
+Qed.
+
+Lemma itcall_ok c n s s' a : ps_grouper G R s = ps_grouper G R s' ->
+  snd (itcall false c n s a) = snd (itcall false c n s' a) /\
+  ps_grouper G R (fst (itcall false c n s a)) = ps_grouper G R s.
+Proof.
+  intros E. unfold C09_Model.itcall.
+  pose proof (pscall_outcome c s s' a E) as Eo.
+  pose proof (pscall_grouper c s a) as G1. pose proof (pscall_grouper c s' a) as G2.
+  destruct (pscall false c s a) as [s1 o1]. destruct (pscall false c s' a) as [s2 o2].
+  cbn [fst snd] in *. subst o2.
+  destruct o1 as [[r|]|e]; try (split; [reflexivity|exact G1]).
+  destruct (itloop_ok c (Nat.pred n) s1 s2 [Val (Some r)]) as [H1 H2]; [congruence|].
+  split; [exact H1|congruence].
+Qed.
+
+Lemma itrun_ok c n g0 h : forall s, ps_grouper G R s = g0 ->
+  map fst (itrun false c n s h) = map (fun a => snd (itcall false c n (psinit g0) a)) h.
+Proof.
+  induction h as [|a h IH]; intros s E; [reflexivity|].
+  cbn [C09_Model.itrun]. destruct (itcall_ok c n s (psinit g0) a) as [H1 H2]; [rewrite E; reflexivity|].
+  destruct (itcall false c n s a) as [s1 o]. cbn [fst snd map] in *. f_equal; [exact H1|].
+  apply IH. congruence.
+Qed.
+Lemma iterative_calls_fresh_lemma c n g0 h :
+  map fst (itrun false c n (psinit g0) h) = map (fun a => snd (itcall false c n (psinit g0) a)) h.
+Proof. apply itrun_ok. reflexivity. Qed.
+End PsfProofs.
+
+(* the code as found: a call with a group_id column sets self.grouper = None for good *)
+Lemma psf_legacy_refuted_lemma :
+  exists (c : pscfg) (g0 : option Z) (h : list pargs),
+    map fst (psrun Z term tfit true c (psinit Z term g0) h)
+    <> map (fun a => snd (pscall Z term tfit true c (psinit Z term g0) a)) h.
+Proof.
+  exists {| ps_finder := true |}, (Some 1%Z),
+         [ {| pa_data := 0; pa_init := Some true; pa_tab := 0 |};
+           {| pa_data := 0; pa_init := None; pa_tab := 0 |} ].
+  vm_compute. discriminate.
+Qed.
+
+(* ------------------------------------------------------------------------- *)
+(* (d) Ellipse.fit_image                                                      *)
+(* ------------------------------------------------------------------------- *)
+Section EllProofs.
+Variable R : Type.
+Variable efit : geo -> eargs -> R.
+Variable eempty : R.
+Notation ecall := (ecall R efit eempty).
+Notation erun := (erun R efit eempty).
+
+Lemma ecall_geo g a : fst (ecall false g a) = g.
+Proof. unfold C09_Model.ecall. destruct (e_fc a && e_fp a && e_fe a); reflexivity. Qed.
+
+Lemma ellipse_calls_fresh_lemma g h :
+  map fst (erun false g h) = map (fun a => snd (ecall false g a)) h /\
+  Forall (fun rg => snd rg = g) (erun false g h).
+Proof.
+  induction h as [|a h [IH1 IH2]]; [split; [reflexivity|constructor]|].
+  cbn [C09_Model.erun map]. pose proof (ecall_geo g a) as E.
+  destruct (ecall false g a) as [g1 r]. cbn [fst snd map] in *. subst g1.
+  split; [f_equal; exact IH1|constructor; [reflexivity|exact IH2]].
+Qed.
+End EllProofs.
+
+Lemma ellipse_legacy_refuted_lemma :
+  exists (g : geo) (h : list eargs),
+    map fst (erun term tefit (Atom 49) true g h) <> map (fun a => snd (ecall term tefit (Atom 49) true g a)) h.
+Proof.
+  exists {| g_lin := false; g_fix := (false, false, false, false) |},
+         [ {| e_id := 0; e_linear := None; e_fc := true; e_fp := false; e_fe := false |};
+           {| e_id := 1; e_linear := None; e_fc := false; e_fp := false; e_fe := false |} ].
+  vm_compute. discriminate.
+Qed.
+
+(* ------------------------------------------------------------------------- *)
+(* (d) GriddedPSFModel                                                        *)
+(* ------------------------------------------------------------------------- *)
+Section GridProofs.
+Variable V : Type.
+Variable spline : Z * Z -> V.
+Notation calc_interp := (calc_interp V spline).
+Notation geval := (geval V spline).
+Notation grun := (grun V spline).
+
+Definition ginv (c : gcache V) : Prop := forall k v, glookup V k c = Some v -> v = spline k.
+
+Lemma zz_eqb_eq a b : zz_eqb a b = true -> a = b.
+Proof.
+  destruct a as [a1 a2], b as [b1 b2]. unfold zz_eqb. cbn. intros H.
+  apply andb_true_iff in H. destruct H as [H1 H2]. apply Z.eqb_eq in H1, H2. congruence.
+Qed.
+
+Lemma glookup_app k c k' v' :
+  glookup V k (c ++ [(k', v')]) =
+  match glookup V k c with Some v => Some v | None => if zz_eqb k k' then Some v' else None end.
+Proof.
+  induction c as [|[k0 v0] c IH]; cbn; [destruct (zz_eqb k k'); reflexivity|].
+  destruct (zz_eqb k k0); [reflexivity|exact IH].
+Qed.
+
+Lemma calc_interp_ok c k : ginv c ->
+  snd (calc_interp c k) = spline k /\ ginv (fst (calc_interp c k)).
+Proof.
+  intros I. unfold C09_Model.calc_interp. destruct (glookup V k c) as [v|] eqn:E; cbn.
+  - split; [apply I; exact E|exact I].
+  - split; [reflexivity|]. intros k1 v1. rewrite glookup_app.
+    destruct (glookup V k1 c) eqn:E1; [intros [= <-]; apply I; exact E1|].
+    destruct (zz_eqb k1 k) eqn:Ek; [|discriminate]. intros [= <-].
+    apply zz_eqb_eq in Ek. subst. reflexivity.
+Qed.
+
+Lemma geval_fold keys : forall c out, ginv c ->
+  let r := fold_left (fun '(c, out) k => let '(c1, v) := calc_interp c k in (c1, out ++ [v])) keys (c, out) in
+  snd r = out ++ map spline keys /\ ginv (fst r).
+Proof.
+  induction keys as [|k keys IH]; intros c out I; cbn [fold_left map].
+  - rewrite app_nil_r. split; [reflexivity|exact I].
+  - destruct (calc_interp_ok c k I) as [H1 H2]. destruct (calc_interp c k) as [c1 v]. cbn [fst snd] in *. subst v.
+    destruct (IH c1 (out ++ [spline k]) H2) as [H3 H4]. split; [|exact H4].
+    rewrite H3, <- app_assoc. reflexivity.
+Qed.
+
+Lemma geval_ok xg yg c xy : ginv c ->
+  snd (geval xg yg c xy) = map spline (bounding xg yg (fst xy) (snd xy)) /\ ginv (fst (geval xg yg c xy)).
+Proof. intros I. unfold C09_Model.geval. apply (geval_fold _ c [] I). Qed.
+
+Lemma ginv_nil : ginv [].
+Proof. intros k v H. discriminate H. Qed.
+
+Lemma grun_ok xg yg h : forall c, ginv c ->
+  map fst (grun xg yg c h) = map (fun xy => snd (geval xg yg [] xy)) h.
+Proof.
+  induction h as [|xy h IH]; intros c I; [reflexivity|].
+  cbn [C09_Model.grun]. destruct (geval_ok xg yg c xy I) as [H1 H2].
+  destruct (geval_ok xg yg [] xy ginv_nil) as [H3 _].
+  destruct (geval xg yg c xy) as [c1 vs]. cbn [fst snd map] in *. f_equal; [congruence|]. apply IH, H2.
+Qed.
+Lemma grid_evals_fresh_lemma xg yg h :
+  map fst (grun xg yg [] h) = map (fun xy => snd (geval xg yg [] xy)) h.
+Proof. apply grun_ok, ginv_nil. Qed.
+End GridProofs.
+
+(* ------------------------------------------------------------------------- *)
+(* (d) star finders                                                           *)
+(* ------------------------------------------------------------------------- *)
+Section FinderProofs.
+Variables K I R : Type.
+Variable norm : K -> K.
+Variable find : K -> I -> R.
+Hypothesis norm_idem : forall k, norm (norm k) = norm k.
+Notation sfcall := (sfcall K I R norm find).
+Notation sfrun := (sfrun K I R norm find).
+
+Lemma sfrun_ok k0 h : forall k, norm k = norm k0 ->
+  map fst (sfrun k h) = map (fun i => snd (sfcall k0 i)) h.
+Proof.
+  induction h as [|i h IH]; intros k E; [reflexivity|].
+  cbn [C09_Model.sfrun C09_Model.sfcall map fst snd]. rewrite E. f_equal.
+  apply IH. rewrite norm_idem. reflexivity.
+Qed.
+Lemma starfinder_calls_fresh_lemma k0 h :
+  map fst (sfrun k0 h) = map (fun i => snd (sfcall k0 i)) h.
+Proof. apply sfrun_ok. reflexivity. Qed.
+End FinderProofs.
+
+(* DAOStarFinder / IRAFStarFinder: configuration is only read *)
+Lemma readonly_finder_calls_fresh_lemma (K I R : Type) (find : K -> I -> R) k0 h :
+  map fst (sfrun K I R (fun k => k) find k0 h) = map (fun i => find k0 i) h.
+Proof. apply (starfinder_calls_fresh_lemma K I R (fun k => k) find (fun k => eq_refl) k0 h). Qed.
